@@ -63,6 +63,23 @@ def gen(ctx):
             for width in list(range(w + 1, w + (70 if ctx.tier == 'quick' else 300))):
                 meta.append((sym, level, q, Fraction(1), width, p))
     scan_from = n + 3 * 18
+    # rMQR, non-square: requested widths W for which the proportional height h*W/w is an EXACT integer although W is not a
+    # multiple of the padded width - the cases in which the order of the floating-point operations decides whether the
+    # ceiling adds a row.  Versions are reached through payload lengths (New picks them), learnt from the implementation.
+    from checks import refrmqr
+    digs = [1, 12, 30, 60, 90, 130, 180, 250, 330]
+    vout = ctx.go(['rm.new 0 0 1 %s' % (b'1' * k).hex() for k in digs])
+    for k, o in zip(digs, vout):
+        d = o.split()
+        if d[0] != 'ok':
+            continue
+        hh, ww = refrmqr.SIZES[int(d[1])]
+        for q in (0, 1, 2, 3, 4):
+            wq, hq = ww + 2 * q, hh + 2 * q
+            cands = [W for W in range(wq + 1, 1001) if (hq * W) % wq == 0 and W % wq != 0]
+            pick = cands[:2] + [r.choice(cands) for _ in range(2 if ctx.tier == 'quick' else 8)] if cands else []
+            for W in sorted(set(pick)):
+                meta.append(('rm', 0, q, Fraction(1), W, b'1' * k))
     n2 = len(meta)
     # no options at all: the documented defaults (module size 1; quiet zone 4 for QR and Micro QR, 2 for rMQR)
     for sym in ('qr', 'mq', 'rm'):
